@@ -8,6 +8,7 @@ import ChythonModel.Proofs.C15Dict
 import ChythonModel.Proofs.C15Radicals
 import ChythonModel.Proofs.C15Mapping
 import ChythonModel.Proofs.C15Union
+import ChythonModel.Proofs.C15EquivOn
 import ChythonModel.Model.C15CgrTokens
 import ChythonModel.Model.C15Hash
 import ChythonModel.Model.C15Read
@@ -616,6 +617,24 @@ example :
 /-! ## part 11 — renumbering when numberings collide: `Graph.union(remap=True)` renumbers relative to `max`
 
 `union` / `unionAll` / `rxnCompose` are the functions of Model/C15Compose.lean the driver runs (ops `union`, `rxn`). -/
+
+/-- **compose_equivariant_on.** Part 5 at full strength: the renumbering need only be injective *on the atom numbers of
+    the two sides* (any behaviour elsewhere; `compose_equivariant_dict_order` asks for a globally injective map) — e.g. the
+    induced renaming of a union, or the gap-closing map of `remap=True` (`mapping_remap_consistent`), which are injective
+    exactly on the numbers in use. Errors are the same errors. -/
+theorem compose_equivariant_on (g : Nat → Nat) (r p : Mol) (wr : r.WF = true) (wp : p.WF = true)
+    (hinj : ∀ x ∈ r.ids ++ p.ids, ∀ y ∈ r.ids ++ p.ids, g x = g y → x = y) :
+    compose (rename g r) (rename g p) = mapExcept (renameCGR g) (compose r p) :=
+  compose_rename_on g r p (wfp_of_WF r wr) (wfp_of_WF p wp) hinj
+
+/-- non-trivial instance: ethanol → ethoxide renumbered by a map that is injective on {1, 2} only (3 ↦ 6 = image of 1) -/
+example :
+    let r : Mol := ⟨[(1, {z := 6}), (2, {z := 8})], [(1, [(2, {order := 1})]), (2, [(1, {order := 1})])]⟩
+    let p : Mol := ⟨[(1, {z := 6}), (2, {z := 8, charge := -1})], [(1, [(2, {order := 1})]), (2, [(1, {order := 1})])]⟩
+    let g : Nat → Nat := fun n => if n ≤ 2 then n + 5 else 6
+    (∀ x ∈ r.ids ++ p.ids, ∀ y ∈ r.ids ++ p.ids, g x = g y → x = y) ∧ g 3 = g 1 ∧
+    (compose (rename g r) (rename g p)).toOption.map (·.centerAtoms) = some [7] := by
+  decide
 
 /-- **union_equivariant.** For every pair of well-formed graphs — disjoint, partly overlapping or identical numberings —
     and every injective renumbering `f` of both: `f a | f b` is `a | b` renumbered by the induced map `inducedRen f a b`
